@@ -145,6 +145,8 @@ class _RestoreOnReady(nfa.Spec):
             return ("pending",)
         if ph == "polled" and ev in ("sw:Poll::Ready", "bool:is_ready=1", "bool:is_pending=0"):
             return ("ready",)
+        if ev == "call:share" and ph in ("polled", "ready"):
+            return nfa.Err("the share is cloned from the handle's own field after the in-place poll may have completed: a clone of a completed Shared is a dead share (polling it panics)")
         if ev == "stmt:restore" and ph in ("polled", "ready"):
             return ("restored",)
         if ev == "ret" and ph in ("polled", "ready"):
@@ -188,7 +190,12 @@ def check_inplace_polls(ctx, fx, RULE):
                         if o.kind == "call" and (body_.call_at(o).get("callee") or "").endswith("Clone::clone") and SHARED in " ".join(body_.call_at(o).get("argtys", [])):
                             return "stmt:restore"
                     return None
-                RA = nfa.Alphabet(calls=[("poll", lambda x, _t=t: x is _t), ("is_ready", nfa.callee_ends("poll::{impl#0}::is_ready", "Poll::is_ready")), ("is_pending", nfa.callee_ends("poll::{impl#0}::is_pending", "Poll::is_pending"))],
+                def is_share(x, _b=b, _direct=direct):
+                    if not ((x.get("callee") or "").endswith("Clone::clone") and SHARED in " ".join(x.get("argtys", []))):
+                        return False
+                    src_ = _b.origins(x["args"][0], through_calls="plumbing")
+                    return {(y.kind, y.site, y.proj) for y in src_ if y.kind in ("arg", "upvar")} == {(y.kind, y.site, y.proj) for y in _direct}
+                RA = nfa.Alphabet(calls=[("poll", lambda x, _t=t: x is _t), ("share", is_share), ("is_ready", nfa.callee_ends("poll::{impl#0}::is_ready", "Poll::is_ready")), ("is_pending", nfa.callee_ends("poll::{impl#0}::is_pending", "Poll::is_pending"))],
                                   adts={"core::task::poll::Poll": "Poll"}, bools={"is_ready", "is_pending"})
                 RA.stmt_fn = is_restore
                 rn = nfa.build(b, RA)
